@@ -21,7 +21,7 @@ def norm(out):
             res.append(('C', x[1]))
         elif x[0] == 'S':
             res.append(('S', int(x[1]), x[2]))
-        elif x[0] in ('START', 'RESP'):
+        elif x[0] in ('START', 'RESP', 'RESP431'):
             res.append((x[0], int(x[1])))
         else:
             res.append(tuple(x))
@@ -57,7 +57,7 @@ def handlers_layer(ctx, drv):
         raise vf.Inconclusive('H2Handlers: the flood is not reachable in the bounded model (vacuous)')
     rng = random.Random(ctx.seed + 77)
     res = {'paths': 0, 'steps': 0, 'floods': 0, 'queued_then_started': 0, 'dropped_after_reset': 0}
-    for adv, cfg, sample in ((1, 'MC_C13_handlers1_graph.cfg', 1.0), (2, 'MC_C13_handlers2_graph.cfg', 0.02 if t == 'quick' else 0.2)):
+    for adv, cfg, sample in ((1, 'MC_C13_handlers1_graph.cfg', 1.0), (2, 'MC_C13_handlers2_graph.cfg', 0.012 if t == 'quick' else 0.2)):
         gpath, g, _ = vf.tlc_graph(ctx, 'H2Handlers', cfg, 'c13hgraph%d' % adv, timeout=1800)
         epaths, total = vf.edge_cover_paths(g, rng, sample=sample, max_len=34)
         paths = []
@@ -206,6 +206,7 @@ def run(ctx):
     ctx.run_driver(drv, [vin, vout], timeout=3000, env={'VF_ADVMAX': '1' if t == 'quick' else '2'})
     obs = vf.read_json(vout)
     nsteps = 0
+    hkinds = {}
     nerr = 0
     diverge = 0
     samples = []
@@ -230,6 +231,10 @@ def run(ctx):
                               'after %s the connection failed (%s); specification expects %s' % (trail, so['err'], st['expect']), {'path': trail, 'observed': so})
                 break
             nsteps += 1
+            if st.get('f') and st['f'][0] == 'HEADERS':
+                hkinds[st['f'][4]] = hkinds.get(st['f'][4], 0) + 1
+                if any(x[0] == 'RESP431' for x in st['expect']):
+                    hkinds['answered_431_by_the_server'] = hkinds.get('answered_431_by_the_server', 0) + 1
             if not acceptable(st['expect'], so.get('got') or []):
                 kinds = {x[0] for x in (so.get('got') or [])} | {x[0] for x in st['expect']}
                 kind = 'handler_started_illegally' if any(x[0] == 'START' for x in so.get('got') or []) and not any(x[0] == 'START' for x in st['expect']) else \
@@ -250,7 +255,7 @@ def run(ctx):
     if nerr > max(3, len(paths) // 50):
         raise vf.Inconclusive('%d of %d paths failed in the harness, e.g. %s' % (nerr, len(paths), [o['err'] for o in obs if o.get('err')][:2]))
     cov = {'traces_validated_against_impl': len(paths) - nerr + hres['paths'], 'handler_scheduling_layer': hres, 'serve_loop_event_order': lres, 'samples': samples or [{'frames': [s.get('f') for s in paths[0]['steps']]}],
-           'steps_compared': nsteps, 'graph_edges_total': len(g['edges']), 'live_edges_sampled': total, 'edge_sample_fraction': sample,
+           'steps_compared': nsteps, 'header_blocks_replayed_by_kind': hkinds, 'graph_edges_total': len(g['edges']), 'live_edges_sampled': total, 'edge_sample_fraction': sample,
            'reactions_accepted_by_rfc_latitude_only': diverge, 'paths_cut_at_unobservable_step_inside_open_header_block': unobservable[0],
            'rule': 'paths from the initial state covering a seeded sample of the live edges of the TLC graph (frame alphabet: SETTINGS ok/ack/bad, HEADERS/CONTINUATION with '
                    'END_STREAM/END_HEADERS variants, malformed block, self-dependency, DATA, RST_STREAM, WINDOW_UPDATE ok/zero/overflow, PRIORITY ok/self, PUSH_PROMISE, PING ok/ack/wrong size/on a stream, GOAWAY from the client (graceful state: newer streams discarded, no second GOAWAY on a later connection error), unknown; '
